@@ -297,6 +297,7 @@ class Run:
         self.obs: dict = {}
         self.trace: list = []
         self.section_offsets: list = []
+        self.sections_plain: list = []
 
     def violation(self, oracle, site, msg, detail=None):
         self.records.append({"oracle": oracle, "site": site, "msg": msg, "detail": detail})
@@ -559,6 +560,7 @@ class Run:
             self.violation("rom-rejects-export", exc.stage, f"{label}: the ROM-loader model rejects the file: {exc}")
             return False
         self.section_offsets = [sec["offset"] for sec in res["sections"]]
+        self.sections_plain = [{"plain": sec["plain"], "body_offset": sec["body_offset"]} for sec in res["sections"]]
         self.compare_content(content, "rom", label, False)
         want = {
             "version": p["version"],
@@ -698,6 +700,41 @@ class Run:
                 self.fault("storage_truncation_at_section_boundary")
                 self.check_faulty(data[:n], f"op {k}: file cut at the boundary before section {self.section_offsets.index(n)} ({n}/{len(data)} bytes)", must_reject=True)
                 self.log.add("trunc_section", n)
+            elif name == "malleate":
+                # AES-CTR is malleable: two bits of one command header are flipped so that the additive header checksum
+                # still holds (the address or count changes). Only the section MACs / the signed SHA-256 stand against it.
+                secs = self.sections_plain
+                cands = []
+                for si_, sec in enumerate(secs):
+                    plain = sec["plain"]
+                    o_ = 0
+                    while o_ + 16 <= len(plain):
+                        tag_ = plain[o_ + 1]
+                        cands.append((si_, o_))
+                        o_ += 16 + ((struct.unpack_from("<L", plain, o_ + 8)[0] + 15) // 16 * 16 if tag_ == 2 else 0)
+                if not cands:
+                    continue
+                si_, o_ = cands[op["r"] % len(cands)]
+                hdr = secs[si_]["plain"][o_ : o_ + 16]
+                done = False
+                for j in range(8):
+                    bit = (op["bit"] + j) % 8
+                    zeros = [b for b in range(4, 12) if not hdr[b] >> bit & 1]
+                    ones = [b for b in range(4, 16) if hdr[b] >> bit & 1]
+                    if zeros and ones and (len(zeros) > 1 or zeros != ones):
+                        a_ = zeros[op["r"] // 7 % len(zeros)]
+                        b_ = [b for b in ones if b != a_][op["r"] // 11 % len([b for b in ones if b != a_])]
+                        g = bytearray(data)
+                        base = secs[si_]["body_offset"] + o_
+                        g[base + a_] ^= 1 << bit
+                        g[base + b_] ^= 1 << bit
+                        done = True
+                        break
+                if not done:
+                    continue
+                self.fault("storage_ctr_malleation")
+                self.check_faulty(bytes(g), f"op {k}: two bits of the command header at {base} flipped so that its checksum still holds", must_reject=True)
+                self.log.add("malleate", base, a_, b_, bit)
             elif name == "wrong_kek":
                 kk = bytearray(self.kek)
                 kk[op["r"] % 32] ^= 1 << (op["bit"] & 7)
@@ -1040,9 +1077,11 @@ def gen_plan(family: str, i: int, rng: random.Random, tier: str, _depth: int = 0
             ops.append({"op": "trunc", "r": rng.randrange(1 << 30), "align": rng.random() < 0.5})
         elif r < 0.64:
             ops.append({"op": "trunc_section", "r": rng.randrange(1 << 30)})
-        elif r < 0.7:
+        elif r < 0.68:
             ops.append({"op": "wrong_kek", "r": rng.randrange(1 << 30), "bit": rng.randrange(8)})
-        elif r < 0.76:
+        elif r < 0.74:
+            ops.append({"op": "malleate", "r": rng.randrange(1 << 30), "bit": rng.randrange(8)})
+        elif r < 0.79:
             ops.append({"op": "torn", "r": rng.randrange(1 << 30)})
         else:
             transport = rng.choice(["uart", "hid"])
